@@ -2,6 +2,7 @@
 
 JSON forms
   expr : ['c', 'p/q'] | ['v', name] | ['+', a, b] | ['-', a, b] | ['*', a, b]
+         | ['q', 'p/q', form] | ['/', a, ['c', n]]        (decimal stream only, see c01_gen3)
   atom : {'k':'const','d':expr,'amps':[[ch,expr],..]} | {'k':'table','chs':[[ch,[[t,v,interp],..]],..]}
        | {'k':'point','entries':[[t,[v,..],interp],..],'chs':[ch,..]} | {'k':'multi','subs':[atom,..]}
        | {'k':'aarith','l':atom,'op':'+'|'-','r':atom} | {'k':'func','d':expr,'ch':ch,'a':expr,'b':expr}   (a + b*t)
@@ -27,13 +28,15 @@ def V(n):
 def ev(e, env):
     """exact value of an expression under env (name -> Fraction | None); None if it depends on an unknown"""
     k = e[0]
-    if k == 'c':
+    if k in ('c', 'q'):          # ['q', 'p/q', form]: literal written as float / decimal string / fraction / TimeType (c01_gen3)
         return F(e[1])
     if k == 'v':
         return env.get(e[1])
     a, b = ev(e[1], env), ev(e[2], env)
     if a is None or b is None:
         return None
+    if k == '/':                 # division by an integer literal (c01_gen3)
+        return a / b
     return a + b if k == '+' else a - b if k == '-' else a * b
 
 
@@ -41,7 +44,7 @@ def expr_vars(e, acc=None):
     acc = set() if acc is None else acc
     if e[0] == 'v':
         acc.add(e[1])
-    elif e[0] != 'c':
+    elif e[0] not in ('c', 'q'):
         expr_vars(e[1], acc)
         expr_vars(e[2], acc)
     return acc
